@@ -18,8 +18,8 @@ precedence between direct and legacy is not stated and not judged).  (2) every
 accessor must behave as that root implies: its dumps() equals the dumps() of a
 direct load of the file found there under the current or legacy name (either,
 when both exist), or RuntimeError when the root has neither.  Caching: the same
-object on re-access and NO open() audit event on the second access; the first
-access opens exactly one metadata file.  Errors: missing, undecodable and
+object on re-access and NO open() audit event on the second access (how many files
+the first access opens is recorded, not judged).  Errors: missing, undecodable and
 ValueError-class invalid files must surface as RuntimeError whose text names
 the file or the compose root; decodable JSON of the wrong shape is only
 required to raise.
@@ -287,11 +287,11 @@ def check_config(ctx, pm, cfg, workdir, texts, counter):
                               detail=str(exc)[:200] if exc else None)
                 continue
             opened = [e for e in events if "/metadata/" in e[1] and e[1].endswith(".json")]
-            bad = len(opened) != 1
-            ctx.monitor("opened-once", fired=bad)
-            if bad:
-                ctx.violation("opened-once", "the first access loads exactly one metadata file", sub,
-                              observed=[os.path.relpath(e[1], base) for e in opened], expected="one open")
+            # observed, not judged: 'loaded once and then reused' is the caching claim checked below; how many files the
+            # first access opens is an implementation matter
+            ctx.monitor("opened-once")
+            if len(opened) != 1:
+                ctx.note_add("first_access_opened_%d_files" % len(opened))
             # caching
             ctx.audit.begin(base)
             try:
